@@ -1,6 +1,6 @@
 /-
 C15 — The strict parser is the lenient parser followed by the two value checks
-(parser half).
+(parser half), and every generated hash passes them (generator half).
 
 Property theorems only.  For a build configuration `c`, `cs` is `c` with the
 `strict-parser` feature on and `cl` is `c` with it off; everything else
@@ -9,6 +9,9 @@ are the spec's validity of the checksum (48-bucket variant: first byte ≤ 48) a
 of the length code (< 170).
 -/
 import TlshVerif.Lemmas.CodecBin
+import TlshVerif.Lemmas.Strict
+import TlshVerif.Theorems.C01
+import TlshVerif.Theorems.C04
 
 namespace TlshVerif.Theorems.C15
 
@@ -111,5 +114,36 @@ example :
     Model.fromStrBytes Ref.codec Ref.strict { strict := true } Variant.short
       ([48, 48, 65, 65] ++ List.replicate 26 48) none = .err .lengthIsTooLarge := by
   refine ⟨by decide +kernel, by decide +kernel, by decide +kernel⟩
+
+/-- **Generator half.**  Every hash the generator can produce — any input, any
+chunking, any of the 32 option settings, any configuration — has a valid length
+code (< 170) and, on the 48-bucket variant, a checksum byte ≤ 48; it is well
+formed; and its length code is the code of the number of bytes fed. -/
+theorem generated_strict_valid (cfg : Model.Cfg) (v : Variant) (hv : v.Valid) (o : Options)
+    (ps : List (List UInt8)) (h : Hash)
+    (hok : Model.genFinalize Gen.params cfg v
+      (ps.foldl (Model.genUpdate Gen.params cfg v) (Model.genInit cfg v)) o = .ok h) :
+    h.WF v ∧ Spec.checksumValid v h = true ∧ Spec.lengthValid h = true ∧
+      h.lvalue.toNat = Spec.lengthCode ps.flatten.length := by
+  rw [C01.generate_chunked_eq_spec cfg v hv o ps] at hok
+  cases hs : Spec.tlsh v o ps.flatten with
+  | error e => rw [hs] at hok; cases hok
+  | ok h' =>
+    rw [hs] at hok
+    cases hok
+    exact Model.spec_tlsh_valid v hv o ps.flatten h hs
+
+/-- Hence generated hashes always survive a strict round trip: formatting and
+parsing back with the strict parser (any decoder configuration, with or
+without the prefix, auto-detected or explicit) yields the identical hash. -/
+theorem strict_roundtrip_generated (c : Model.CodecCfg) (cfg : Model.Cfg) (v : Variant) (hv : v.Valid)
+    (o : Options) (ps : List (List UInt8)) (h : Hash)
+    (hok : Model.genFinalize Gen.params cfg v
+      (ps.foldl (Model.genUpdate Gen.params cfg v) (Model.genInit cfg v)) o = .ok h) :
+    Model.fromStrBytes Ref.codec Ref.strict { c with strict := true } v (Spec.format h .withVersion) none
+      = .ok h := by
+  obtain ⟨hwf, hck, hlv, _⟩ := generated_strict_valid cfg v hv o ps h hok
+  have hl := (C04.parse_format { c with strict := false } rfl v h hwf .withVersion).2
+  exact ((strict_eq_lenient_then_checks_text c v hv _ none).1 h).mpr ⟨hl, hck, hlv⟩
 
 end TlshVerif.Theorems.C15
